@@ -1,6 +1,6 @@
 use crate::{hash_path, user_forc_directory};
 use std::{
-    fs::{create_dir_all, read_dir, remove_file, File},
+    fs::{create_dir_all, read_dir, remove_file, rename, File},
     io::{self, Read, Write},
     path::{Path, PathBuf},
 };
@@ -142,9 +142,15 @@ impl PidFileLocking {
             create_dir_all(dir)?;
         }
 
+        // Write the PID to a temporary file and move it into place. Creating the lock file
+        // directly would expose it empty until the PID is written, and other processes treat an
+        // empty lock file as stale and remove it, which silently loses this lock.
+        let tmp = self
+            .0
+            .with_extension(format!("{}.tmp", std::process::id()));
         #[cfg(fuellabs_sway_verif)]
         verif::step("lock:create", &self.0);
-        let mut fs = File::create(&self.0)?;
+        let mut fs = File::create(&tmp)?;
         #[cfg(fuellabs_sway_verif)]
         verif::step("lock:write", &self.0);
         fs.write_all(std::process::id().to_string().as_bytes())?;
@@ -152,6 +158,13 @@ impl PidFileLocking {
         verif::step("lock:sync", &self.0);
         fs.sync_all()?;
         fs.flush()?;
+        drop(fs);
+        #[cfg(fuellabs_sway_verif)]
+        verif::step("lock:rename", &self.0);
+        if let Err(e) = rename(&tmp, &self.0) {
+            let _ = remove_file(&tmp);
+            return Err(e);
+        }
         Ok(())
     }
 
